@@ -8,7 +8,7 @@
     All statements quantify over every policy, every hop (scheme/host strings, resolver answer,
     literal) and every redirect chain; nothing is bounded. *)
 From Coq Require Import String Ascii List Bool NArith ZArith Arith.
-From HK Require Import Model.IpClass Model.IpSpec Model.Egress Proofs.IpClassProofs Proofs.EgressProofs.
+From HK Require Import Model.StrUtil Model.IpClass Model.IpSpec Model.Egress Proofs.IpClassProofs Proofs.EgressProofs.
 Import ListNotations.
 Local Open Scope string_scope.
 
